@@ -111,18 +111,23 @@ def jitter_lib():
         if rc != 0:
             raise RuntimeError("jitter library does not compile: " + o[-1000:])
         os.replace(out + ".tmp", out)
-    return out
+    return os.path.realpath(out)
+
+
+JITTER_LIB = [None]
 
 
 def run_config(binary, c, threads, jitter=None, trace=True, timeout=60):
     d = tempfile.mkdtemp(prefix="verif_c01_")
+    if jitter and JITTER_LIB[0] is None:
+        JITTER_LIB[0] = jitter_lib()
     try:
         if len(c.get("sources", [])) > 1:
             with open(os.path.join(d, "sources.yml"), "w") as f:
                 f.write(sources_yml(c["sources"]))
         env = {}
         if jitter:
-            env["LD_PRELOAD"] = jitter_lib()
+            env["LD_PRELOAD"] = JITTER_LIB[0]
             env["CMAC_VERIF_JITTER"] = jitter
         res = simrun.run_sim(binary, ion_param(c), ["--task-based"], threads=threads, timeout=timeout, trace=trace, env=env, workdir=d)
         res["diagnostics"] = sorted(f for f in os.listdir(d) if f.startswith("diagnostics_"))
@@ -677,9 +682,9 @@ def run(ctx):
     E = simrun.enums()
     if E.get("PHOTONBUFFER_SIZE") != 200:
         ctx.broken_obligation("PHOTONBUFFER_SIZE is %r in the code but 200 in the Lean model (Photon.BUFSZ)" % E.get("PHOTONBUFFER_SIZE"))
-    harness = vlib.build_harness("c01")
-    binary = vlib.full_binary()
-    jitter_lib()
+    harness = os.path.realpath(vlib.build_harness("c01"))
+    binary = os.path.realpath(vlib.full_binary())
+    JITTER_LIB[0] = jitter_lib()
     ctx.cov["rule"] = ("dps: N 1..60 x 1..%d sources x copy counts {1,2,4}^sources x weight patterns (exhaustive) + random (N up to 2e5, up to 6 sources, copy counts up to 8); "
                        "photon: real runs on generated configurations (1..4 subgrids per axis, periodic or not, copy level 0..2, discrete / continuous / both sources with 1..4 point sources, "
                        "diffuse field on/off, N in {1,2,7,199,200,201,399,400,401,600,1000,1234,2001,3217}, 1..3 iterations, 1/2/4/8 threads), every trace record replayed through Photon.step; "
